@@ -2,6 +2,9 @@ package rules
 
 import (
 	"fmt"
+	"go/constant"
+	"go/token"
+	"go/types"
 	"sort"
 	"strings"
 
@@ -36,6 +39,8 @@ func runC20(c *Ctx) {
 	r.Rule("C20.4", "nil-watcher-forces-refresh", 1)
 	r.Rule("C20.5", "configure-total: options first, every other field reassigned; NewCache and Configure both go through configure", 6)
 	r.Rule("C20.6", "default-cache: options applied exactly once", 2)
+	r.Rule("C20.7", "shortage-rescan: a scan that ran out of file descriptors is repeated by the next query", 3)
+	c20Shortage(c)
 
 	cdiFns := c.U.RepoFuncs("cdi")
 	// ---- C20.1
@@ -493,4 +498,132 @@ func (c *Ctx) calleeAlwaysAssigns(call ssa.CallInstruction, field string) bool {
 		}
 	}
 	return true
+}
+
+// c20Shortage: C20.7. A cache (re)configured while descriptors are exhausted may get its
+// watcher and still fail to read its directories; the watcher then has nothing to report
+// and only the cache itself knows that its contents are not those of the directories.
+// Decided structurally: (1) refresh assigns c.rescan, on every path to its return, a flag
+// that is set exactly where the scan callback sees an error that is EMFILE or ENFILE;
+// (2) refreshIfRequired asks the flag and goes on to refresh when it is set (the exact
+// conditions are C11.4's). That an unreadable directory produces such an error in the first
+// place is C13.1 unreadable-directory-reported.
+func c20Shortage(c *Ctx) {
+	r := c.R
+	rf := c.fn("C20.7", "cdi", "(*Cache).refresh")
+	rir := c.fn("C20.7", "cdi", "(*Cache).refreshIfRequired")
+	if rf == nil || rir == nil {
+		return
+	}
+	// (1) the assignment
+	var stores []*ssa.Store
+	ir.Instrs(rf, func(in ssa.Instruction) {
+		if st, ok := in.(*ssa.Store); ok {
+			if fa, ok := st.Addr.(*ssa.FieldAddr); ok && fa.X == ssa.Value(rf.Params[0]) && ir.StructOf(fa.X.Type()).Field(fa.Field).Name() == "rescan" {
+				stores = append(stores, st)
+			}
+		}
+	})
+	var flag *ssa.Alloc
+	okStore := len(stores) == 1
+	if okStore {
+		if ld, ok := stores[0].Val.(*ssa.UnOp); ok && ld.Op == token.MUL {
+			flag, _ = ld.X.(*ssa.Alloc)
+		}
+		for _, ret := range ir.NormalReturns(rf) {
+			if !ir.MustPassBefore(rf, ret, func(in ssa.Instruction) bool { return in == ssa.Instruction(stores[0]) }) {
+				okStore = false
+			}
+		}
+	}
+	r.Check("C20.7", "rescan-assigned", okStore && flag != nil, c.U.Pos(rf.Pos()), "every scan leaves in c.rescan whether it ran out of descriptors (one assignment of the scan's own flag, on every path)")
+	// where the flag becomes true
+	if flag != nil && flag.Referrers() != nil {
+		nTrue, okGuards, other := 0, true, false
+		seen := map[string]bool{}
+		check := func(fn *ssa.Function, st *ssa.Store) {
+			b, isConst := ir.ConstBool(st.Val)
+			if !isConst {
+				other = true
+				return
+			}
+			if !b {
+				return
+			}
+			nTrue++
+			// the block of the store is entered only through true edges of errors.Is(err, EMFILE/ENFILE)
+			var es []ir.Edge
+			for _, iff := range ir.Ifs(fn) {
+				call, isCall := iff.Cond.(*ssa.Call)
+				if !isCall || call.Call.StaticCallee() == nil || call.Call.StaticCallee().String() != "errors.Is" || len(call.Call.Args) != 2 {
+					continue
+				}
+				mi, isMI := call.Call.Args[1].(*ssa.MakeInterface)
+				if !isMI {
+					continue
+				}
+				k, isConst := mi.X.(*ssa.Const)
+				if !isConst || k.Value == nil {
+					continue
+				}
+				for _, errno := range []string{"EMFILE", "ENFILE"} {
+					if sp := c.U.Prog.ImportedPackage("syscall"); sp != nil {
+						if obj, ok := sp.Pkg.Scope().Lookup(errno).(*types.Const); ok && constant.Compare(obj.Val(), token.EQL, k.Value) {
+							seen[errno] = true
+							es = append(es, ir.Edge{From: iff.Block(), Succ: 0})
+						}
+					}
+				}
+			}
+			if len(es) == 0 || !ir.OnlyViaEdges(fn, st, es) {
+				okGuards = false
+			}
+		}
+		for _, ref := range *flag.Referrers() {
+			switch x := ref.(type) {
+			case *ssa.Store:
+				if x.Addr == ssa.Value(flag) {
+					check(rf, x)
+				}
+			case *ssa.MakeClosure:
+				cl := x.Fn.(*ssa.Function)
+				for i, bv := range x.Bindings {
+					if bv != ssa.Value(flag) || i >= len(cl.FreeVars) || cl.FreeVars[i].Referrers() == nil {
+						continue
+					}
+					for _, fr := range *cl.FreeVars[i].Referrers() {
+						if st, ok := fr.(*ssa.Store); ok && st.Addr == ssa.Value(cl.FreeVars[i]) {
+							check(cl, st)
+						}
+					}
+				}
+			}
+		}
+		r.Check("C20.7", "flag-set-on-shortage", nTrue >= 1 && okGuards && !other && seen["EMFILE"] && seen["ENFILE"], c.U.Pos(rf.Pos()),
+			fmt.Sprintf("the flag becomes true exactly where the scan reports an error that is EMFILE or ENFILE (%d setting site(s), errno tests seen: %v)", nTrue, keysOf(seen)))
+	}
+	// (2) the question
+	asked := false
+	refs := c.callsTo(rir, false, "cdi", "(*Cache).refresh")
+	for _, iff := range ir.Ifs(rir) {
+		if normExpr(rir, []string{c.exprDesc(iff.Cond)})[0] != "$0.rescan" {
+			continue
+		}
+		e := ir.Edge{From: iff.Block(), Succ: 0}
+		for _, ref := range refs {
+			if ir.CanReach(rir, ir.PathQuery{FromEdge: &e, To: ref.(ssa.Instruction)}) {
+				asked = true
+			}
+		}
+	}
+	r.Check("C20.7", "rescan-asked", asked, c.U.Pos(rir.Pos()), "refreshIfRequired scans again when the last scan ran out of descriptors: a cache set up during the shortage answers from the directories once it is over, although its watcher has nothing to report")
+}
+
+func keysOf(m map[string]bool) []string {
+	var out []string
+	for k := range m {
+		out = append(out, k)
+	}
+	sort.Strings(out)
+	return out
 }
